@@ -1,5 +1,6 @@
 import WR.Base.Sexp
 import WR.C20.Serialize
+import WR.C20.Rules
 import WR.Gen.C20Pairs
 open WR WR.Sexp WR.C06 WR.C20
 
@@ -17,6 +18,20 @@ def handle (req : Sexp) : Sexp :=
       match serialize WR.Gen.C20Pairs.badPairs ts with
       | some s => some (ok [.str (String.ofList s)])
       | none => some (.list [.atom "panic"])
+    | .list [.atom "serc", .atom mode, skip, .str css] => do
+      let skip ← skip.asBool?
+      let ts := tokenize Quirks.spec css.toList
+      let ts := if skip then dropComments ts else ts
+      let m ← match mode with
+        | "stylesheet" => some Mode.stylesheet
+        | "rules" => some Mode.rules
+        | "decls" => some Mode.decls
+        | "blocks" => some Mode.blocks
+        | _ => none
+      let cs := (parseList m (if m == .blocks then false else skip) true ts).filter isRuleLike
+      some (ok (cs.map fun c => match serCompound WR.Gen.C20Pairs.badPairs c with
+        | some s => .str (String.ofList s)
+        | none => .atom "panic"))
     | _ => none
   r.getD (Sexp.err "c20: unknown or malformed request")
 
